@@ -110,23 +110,27 @@ structure RState (LS : Type) where
   byteTok : List Nat
   lexStack : List LS          -- one entry per byte, plus the initial one
   stopOk : Bool               -- stopped "normally" (undone by rollback)
+  /-- `last_token_is_bare_eos`: the last token is an EOS that ended the sequence (no bytes applied) -/
+  bareEos : Bool
 deriving Repr
 
-/-- committing a non-EOS token whose `decode_raw` bytes were all applied, pushing one lexer-stack
-    entry per byte; `ls` are those entries -/
+/-- committing a token whose `decode_raw` bytes were all applied (an EOS token the grammar consumes
+    as a token included), pushing one lexer-stack entry per byte; `ls` are those entries -/
 def RState.commit {LS} (v : Vocab) (s : RState LS) (t : Nat) (ls : List LS) : RState LS :=
   let bs := v.decodeRaw t
   { s with tokens := s.tokens ++ [t], llmBytes := s.llmBytes ++ bs, pBytes := s.pBytes ++ bs,
            byteTok := s.byteTok ++ List.replicate bs.length s.tokens.length,
-           lexStack := s.lexStack ++ ls }
+           lexStack := s.lexStack ++ ls, bareEos := false }
 
 /-- committing EOS in an accepting state: recorded as a token, no bytes; flushing the lexer for
     the EOS check may leave extra lexer-stack entries (`lexer_stack_top_eos`) -/
 def RState.commitEos {LS} (s : RState LS) (t : Nat) (extra : List LS) : RState LS :=
-  { s with tokens := s.tokens ++ [t], lexStack := s.lexStack ++ extra, stopOk := true }
+  { s with tokens := s.tokens ++ [t], lexStack := s.lexStack ++ extra, stopOk := true, bareEos := true }
 
-def bytesToDrop (v : Vocab) (toks : List Nat) : Nat :=
-  (toks.map (fun t => if v.eos.contains t then 0 else v.tokenLen t)).sum
+/-- bytes of the rolled-back tokens: every token counts its `token_len`, except a last token that
+    is a bare end-of-sequence -/
+def bytesToDrop (v : Vocab) (toks : List Nat) (lastBare : Bool) : Nat :=
+  ((if lastBare then toks.dropLast else toks).map v.tokenLen).sum
 
 /-- `TokenParser::rollback` + `ParserState::rollback` -/
 def RState.rollback {LS} (v : Vocab) (s : RState LS) (k : Nat) : Option (RState LS) :=
@@ -134,7 +138,7 @@ def RState.rollback {LS} (v : Vocab) (s : RState LS) (k : Nat) : Option (RState 
   else if k > s.tokens.length then none
   else
     let newLen := s.tokens.length - k
-    let drop := bytesToDrop v (s.tokens.drop newLen)
+    let drop := bytesToDrop v (s.tokens.drop newLen) s.bareEos
     if drop > s.llmBytes.length ∨ drop > s.byteTok.length then none
     else
       let nb := s.byteTok.length - drop
@@ -143,6 +147,6 @@ def RState.rollback {LS} (v : Vocab) (s : RState LS) (k : Nat) : Option (RState 
              pBytes := s.pBytes.take nb,
              byteTok := s.byteTok.take nb,
              lexStack := s.lexStack.take (nb + 1),
-             stopOk := false }
+             stopOk := false, bareEos := false }
 
 end LlgVerif
